@@ -64,6 +64,7 @@ RUNS = []
 def add(rid, entry, n, tier, **kw):
     d = dict(id='%s_n%d' % (rid, n), entry=entry, tiers=[tier] if tier == 'thorough' else ['quick', 'thorough'], cls='shape-complete')
     d.update(kw); defs = dict(kw.get('defs', {})); defs['N'] = n; d['defs'] = defs
+    d.setdefault('unwind', n + 1)      # harness loops over the N cells; the retry loops are cut or have their own unwindset entry
     RUNS.append(d)
 for n, tier in [(x, 'quick') for x in QUICK] + [(x, 'thorough') for x in THOROUGH]:
     # SEQ: any Inv_V state (deq: any 64-bit value, count 0..N, values arbitrary); strong ops: original loop, 2 iterations + unwinding assertion
@@ -71,7 +72,7 @@ for n, tier in [(x, 'quick') for x in QUICK] + [(x, 'thorough') for x in THOROUG
     add('pop_s', 'h_pop_strong', n, tier, unwindset=['vbq_do_try_pop_s.0:2'], note='original retry loop, complete at 1 iteration (unwinding assertion)')
     add('push_w', 'h_push_weak', n, tier, note='retry loop cut by invariant PUSH (partial correctness); termination is the SOLO run')
     add('pop_w', 'h_pop_weak', n, tier, note='retry loop cut by invariant POP')
-    add('dtor', 'h_dtor', n, tier, unwind=n + 1, note='destructor loop runs count <= N times')
+    if n <= 16: add('dtor', 'h_dtor', n, tier, unwind=n + 1, note='destructor loop runs count <= N times, complete at N+1 (N = 32 left out: > 5 min)')
     add('ctor', 'h_ctor', n, tier, unwind=n + 1)
     add('solo_push_w', 'h_solo_push_weak', n, tier, mode='SOLO', defs={'XV_SOLO': 1}, unwindset=['vbq_do_try_push_w.0:2'], unwind_obligation='vbq.weak.terminates')
     add('solo_pop_w', 'h_solo_pop_weak', n, tier, mode='SOLO', defs={'XV_SOLO': 1}, unwindset=['vbq_do_try_pop_w.0:2'], unwind_obligation='vbq.weak.terminates')
